@@ -304,14 +304,14 @@ class VM:
             )
         except _JSThrow as e:
             # A throw that crossed native code: look for the handler again from here
-            self._throw(e.value)
+            self._throw(e.value, locate=False)
         except (MemoryLimitError, TimeLimitError):
             raise
         except JSError as e:
             # Uncaught script exception of nested code (eval): it continues here
             if not hasattr(e, "thrown_value"):
                 raise
-            self._throw(e.thrown_value)
+            self._throw(e.thrown_value, locate=False)
 
     def _execute_opcode(self, op: OpCode, arg: Optional[int], frame: CallFrame) -> None:
         """Execute a single opcode."""
@@ -2683,10 +2683,12 @@ class VM:
                     return source_map[ip]
         return None, None
 
-    def _throw(self, exc: JSValue) -> None:
-        """Throw an exception."""
+    def _throw(self, exc: JSValue, locate: bool = True) -> None:
+        """Throw an exception. locate=False continues a throw that is already under way
+        (it crossed native code or came out of nested eval code): the error keeps the
+        location of the throw itself."""
         # Try to add source location to error object
-        if isinstance(exc, JSObject):
+        if locate and isinstance(exc, JSObject):
             line, column = self._get_source_location()
             if line is not None:
                 exc.set("lineNumber", line)
